@@ -695,6 +695,16 @@ pub fn run(args: &Args) -> i32 {
             }
         }
     }
+    // TLS client whose handshake never completes
+    for what in ["request", "disable", "shutdown", "drop_handle"] {
+        let mut e = Evidence::new();
+        let problems = rt.block_on(tls_stalled_handshake(what, &mut e));
+        ev.merge(e);
+        ev.eval();
+        for (sig, what2) in problems {
+            ev.violation(sig, what2, json!({"leg": "tls_stalled_handshake", "scenario": what}));
+        }
+    }
     // serial port that is disabled while open, disappears and comes back
     {
         let reps = args.tier.pick(2usize, 20);
@@ -718,15 +728,124 @@ pub fn run(args: &Args) -> i32 {
         rule: "one evaluation = one lock-step script of 4-12 steps against the real create_tcp_client_task_with_options task: the state listener parks the task at every notification; at each gate (or while the task is idle) one of {enable, disable, shutdown, drop all handles, submit, nothing} is injected and, at Connecting, the environment for that attempt is chosen from {connection refused, accepted then closed, accepted then garbage, accepted and silent (limit of 2 timeouts), served}. Online automaton on the listener stream (legal transitions, expected successor when nothing is pending, Disabled within 3 notifications of a disable, Shutdown once and last), accept counter while Disabled, request results (no-connection when submitted while down), handles after Shutdown, JoinHandle termination. distinct = (gate state, action, environment) and request (state, result) pairs; distinct state paths are counted".into(),
         assumptions: vec![
             "wall-clock is used only for watchdogs (5 s for an expected notification, 60 s for termination)".into(),
-            "a stalled TLS handshake is outside the property as quantified (TCP and serial only)".into(),
+            "a TLS client whose handshake never completes is covered by the tls_stalled_handshake leg (request, disable, shutdown, handle drop)".into(),
         ],
         exhaustive: None,
         floors: vec![
             ("notifications".into(), args.tier.pick(1_500, 50_000)),
+            ("tls_stalled_handshake_scenarios".into(), 4),
+            ("serial_port_released_after_disable".into(), 0),
             ("requests_checked".into(), args.tier.pick(150, 5_000)),
             ("distinct_state_paths".into(), 0),
         ],
         min_classes: 40,
     };
     finish(args, meta, ev, started)
+}
+
+struct PlainLog {
+    states: std::sync::Arc<std::sync::Mutex<Vec<ClientState>>>,
+}
+impl Listener<ClientState> for PlainLog {
+    fn update(&mut self, v: ClientState) -> MaybeAsync<()> {
+        self.states.lock().unwrap().push(v);
+        MaybeAsync::ready(())
+    }
+}
+
+/// TLS client whose peer accepts the TCP connection and then says nothing: the task sits in
+/// `Connecting` (inside the handshake). It is "not connected": requests fail at once, disable is
+/// reported, shutdown / dropping the handles ends the task - "from every state".
+pub async fn tls_stalled_handshake(what: &'static str, ev: &mut Evidence) -> Vec<(String, String)> {
+    let mut problems = vec![];
+    let Ok(listener) = tokio::net::TcpListener::bind("127.0.0.1:0").await else {
+        ev.inconclusive("stalled-handshake leg: bind");
+        return problems;
+    };
+    let port = listener.local_addr().unwrap().port();
+    let accepted = std::sync::Arc::new(AtomicU64::new(0));
+    let acc2 = accepted.clone();
+    let silent = tokio::spawn(async move {
+        let mut held = vec![];
+        while let Ok((s, _)) = listener.accept().await {
+            acc2.fetch_add(1, Ordering::SeqCst);
+            held.push(s); // keep it open, never write
+        }
+    });
+    let cfg = match TlsClientConfig::full_pki(
+        Some("test.server".to_string()),
+        &crate::tls::fixture("ca1.cert.pem"),
+        &crate::tls::fixture("client_operator.cert.pem"),
+        &crate::tls::fixture("client_operator.key.pem"),
+        None,
+        MinTlsVersion::V1_2,
+    ) {
+        Ok(c) => c,
+        Err(e) => {
+            ev.inconclusive(format!("stalled-handshake leg: TlsClientConfig: {e}"));
+            return problems;
+        }
+    };
+    let states = std::sync::Arc::new(std::sync::Mutex::new(vec![]));
+    let (channel, task) = create_tls_client_task_with_options(
+        HostAddr::ip(IpAddr::V4(Ipv4Addr::LOCALHOST), port),
+        doubling_retry_strategy(Duration::from_millis(200), Duration::from_millis(200)),
+        cfg,
+        Some(Box::new(PlainLog { states: states.clone() })),
+        ClientOptions::default(),
+    );
+    let jh = tokio::spawn(task.run());
+    let _ = channel.enable().await;
+    // wait until the TCP connection exists: from here on the task is inside the handshake
+    let t0 = Instant::now();
+    while accepted.load(Ordering::SeqCst) == 0 && t0.elapsed() < Duration::from_secs(5) {
+        tokio::time::sleep(Duration::from_millis(2)).await;
+    }
+    if accepted.load(Ordering::SeqCst) == 0 {
+        ev.inconclusive("stalled-handshake leg: the client never connected");
+        silent.abort();
+        return problems;
+    }
+    tokio::time::sleep(Duration::from_millis(50)).await;
+    ev.count("tls_stalled_handshake_scenarios", 1);
+    ev.class(format!("tls_stalled_handshake|{what}"));
+    let names = |s: &std::sync::Arc<std::sync::Mutex<Vec<ClientState>>>| s.lock().unwrap().iter().map(state_name).collect::<Vec<_>>();
+    match what {
+        "request" => {
+            let r = tokio::time::timeout(Duration::from_secs(3), channel.read_coils(RequestParam::new(UnitId::new(1), Duration::from_millis(200)), AddressRange::try_from(0, 1).unwrap())).await;
+            match r {
+                Ok(Err(RequestError::NoConnection)) => {}
+                Ok(other) => problems.push((format!("tls_stalled_handshake:request:{}", match &other { Ok(_) => "ok".to_string(), Err(e) => format!("{e:?}").split('(').next().unwrap().to_string() }), format!("a request submitted while the TLS handshake was pending completed with {other:?}"))),
+                Err(_) => problems.push(("tls_stalled_handshake:request_queued".into(), format!("a request submitted while the channel was inside a TLS handshake (not connected) was still pending after 3 s; states {:?}", names(&states)))),
+            }
+        }
+        "disable" => {
+            let _ = channel.disable().await;
+            let st = states.clone();
+            let t0 = Instant::now();
+            while t0.elapsed() < Duration::from_secs(3) && st.lock().unwrap().iter().filter(|s| matches!(s, ClientState::Disabled)).count() < 2 {
+                tokio::time::sleep(Duration::from_millis(5)).await;
+            }
+            if states.lock().unwrap().iter().filter(|s| matches!(s, ClientState::Disabled)).count() < 2 {
+                problems.push(("tls_stalled_handshake:no_disabled_after_disable".into(), format!("no Disabled notification within 3 s after disable() while the TLS handshake was pending; states {:?}", names(&states))));
+            }
+        }
+        _ => {}
+    }
+    // every scenario ends with shutdown (or dropping the handle): the task must end
+    if what == "drop_handle" {
+        drop(channel);
+    } else {
+        let _ = channel.shutdown().await;
+    }
+    match tokio::time::timeout(Duration::from_secs(5), jh).await {
+        Ok(_) => {
+            if names(&states).last() != Some(&"Shutdown") {
+                problems.push(("tls_stalled_handshake:shutdown_not_last".into(), format!("states {:?}", names(&states))));
+            }
+        }
+        Err(_) => problems.push((format!("tls_stalled_handshake:task_did_not_terminate:{what}"), format!("the TLS client task was still running 5 s after {} while its handshake was pending; states {:?}", if what == "drop_handle" { "its handles were dropped" } else { "shutdown" }, names(&states)))),
+    }
+    silent.abort();
+    problems
 }
